@@ -1403,16 +1403,20 @@ fn build_moov_box(
     metadata: Option<&Metadata>,
 ) -> Vec<u8> {
     // Calculate duration in media timescale, then convert to movie timescale (ms)
+    // The movie lasts as long as its longest track (the audio track may well outlast the
+    // video track), not as long as the video track.
     let video_duration_media = video_tables.total_duration();
+    let audio_duration_media = audio.map(|(_, tables)| tables.total_duration()).unwrap_or(0);
+    let movie_duration_media = video_duration_media.max(audio_duration_media);
     #[cfg(feature = "verif")]
     crate::verif::cast(
         "mp4.mvhd.duration",
-        (video_duration_media as i128) * (MOVIE_TIMESCALE as i128) / (MEDIA_TIMESCALE as i128),
+        (movie_duration_media as i128) * (MOVIE_TIMESCALE as i128) / (MEDIA_TIMESCALE as i128),
         32,
         false,
     );
     let video_duration_ms =
-        (video_duration_media * MOVIE_TIMESCALE as u64 / MEDIA_TIMESCALE as u64) as u32;
+        (movie_duration_media * MOVIE_TIMESCALE as u64 / MEDIA_TIMESCALE as u64) as u32;
 
     let mvhd_payload = build_mvhd_payload(video_duration_ms);
     let mvhd_box = build_box(b"mvhd", &mvhd_payload);
